@@ -17,9 +17,14 @@ fn mask_of(line: &str, model: bool) -> Vec<char> {
         .collect()
 }
 
-pub fn compare(_r: &Req, imp: &str, model: &str) -> bool {
+pub fn compare(r: &Req, imp: &str, model: &str) -> bool {
     let a = mask_of(imp, false);
     let b = mask_of(model, true);
+    if r.s("o") == "i32" {
+        // integer output: a null is NaN's integer cast (0), indistinguishable from a value;
+        // what remains observable is the length and the absence of a panic
+        return a.len() == b.len() && a != vec!['P'];
+    }
     a.len() == b.len() && a.iter().zip(b.iter()).all(|(x, y)| x == y || *y == 'D')
 }
 
@@ -65,6 +70,15 @@ pub fn generate(tier: &str, _rng: &mut Rng) -> (Vec<String>, bool) {
                     if !(f.mp_none_needs_len_ge_w && len < w) {
                         mps.push(None);
                     }
+                    if len <= 3 && pat % 3 == 0 {
+                        // integer output element type: length / no-panic only
+                        let mut l = format!("{} w={} mp={} t=f64 o=i32 xs={}{}", f.name, w, mp_tok(Some(w.min(2))),
+                            if xs.is_empty() { "[]".to_string() } else { xs.join(",") }, f.extra);
+                        if f.arity == 2 {
+                            l.push_str(&format!(" ys={}", if ys.is_empty() { "[]".to_string() } else { ys.join(",") }));
+                        }
+                        out.push(l);
+                    }
                     for mp in mps {
                         k += 1;
                         let b = backends[k % backends.len()];
@@ -85,4 +99,13 @@ pub fn generate(tier: &str, _rng: &mut Rng) -> (Vec<String>, bool) {
 
 pub fn rule(tier: &str) -> String {
     format!("mask-only comparison (length + null/non-null pattern; zero-denominator positions accept either) of all {} catalogued rolling entry points: exhaustive over len 0..={} (incl. len < w and empty), window 1..=len+3, min_periods 0..=w and omitted (extrema/rank family: omitted only for len >= w), every null subset; the 14 sized input backends rotated round-robin. non-trivial = len >= 2 with a non-null output.", ROLL.len(), if tier == "thorough" { 7 } else { 5 })
+}
+
+/// F35: ts_vmin / ts_vmax with an integer output element type panic on a masked slot
+/// (`None.cast::<i32>()` calls `i32::none()`)
+pub fn known_finding(r: &Req, imp: &str, _spec: &str) -> Option<String> {
+    if matches!(r.f.as_str(), "ts_vmin" | "ts_vmax") && r.s("o") == "i32" && imp.starts_with("P:") && imp.contains("none()") {
+        return Some("F35".into());
+    }
+    None
 }
